@@ -116,6 +116,32 @@ def probe_portfolio(spec):
             except Exception as e:
                 o['out'] = None
                 o['out_error'] = repr(e)[:300]
+    if opts.get('slp'):
+        # two-stage problem over price samples (stoch_lin_prog.make_slp), optimised and decoded through the same output function
+        try:
+            from eaopack.stoch_lin_prog import make_slp
+            pf3 = mk_portfolio(spec)
+            tg3 = mk_grid(spec['grid'])
+            pr3 = mk_prices(spec)
+            op3 = pf3.setup_optim_problem(pr3, tg3)
+            kf = max(1, min(tg3.T - 1, tg3.T // 2))
+            samples = []
+            for f in (0.5, 1.5, 1.25)[:int(opts['slp'])]:
+                d = {}
+                for k, v in pr3.items():
+                    w = np.asarray(v, float).copy()
+                    if k.startswith('p'):
+                        w[kf:] = w[kf:] * f
+                    d[k] = w
+                samples.append(d)
+            slp = make_slp(op3, pf3, tg3, tg3.timepoints[kf], samples)
+            r3 = slp.optimize()
+            o['slp'] = {'solve': r3 if isinstance(r3, str) else 'optimal'}
+            if not isinstance(r3, str):
+                o['slp'].update(value=float(r3.value), x=[float(v) for v in r3.x], c=[float(v) for v in slp.c],
+                                mapping=dump_mapping(slp.mapping), out=tables(pf3, slp, r3))
+        except Exception as e:
+            o['slp'] = {'solve': 'crash', 'error': repr(e)[:300]}
     if opts.get('split'):
         try:
             portf2 = mk_portfolio(spec)
@@ -747,9 +773,12 @@ def _params_changed(assets, snap):
     for a, d in zip(assets, snap):
         for k, v0 in d.items():
             v1 = getattr(a, k, None)
+            def eq(p, q):
+                if hasattr(p, '__len__') and not isinstance(p, str):
+                    return hasattr(q, '__len__') and len(p) == len(q) and all(x == y for x, y in zip(list(p), list(q)))
+                return bool(p == q) or (p is None and q is None)
             try:
-                same = isinstance(v1, dict) and set(v1) == set(v0) and all(
-                    len(v1[kk]) == len(v0[kk]) and all(x == y for x, y in zip(list(v1[kk]), list(v0[kk]))) for kk in v0)
+                same = isinstance(v1, dict) and set(v1) == set(v0) and all(eq(v1[kk], v0[kk]) for kk in v0)
             except Exception:
                 same = False
             if not same:
